@@ -115,6 +115,16 @@ CHECKS = {
         "note": "Trusted: TLC; closed forms for deep depths (validated against TengoSem at model depths in the same run); the probe hook.",
         "technique": "TLA+ model of the frame discipline checked by TLC + reference semantics at small depths + deep real runs with frame probe",
     },
+    "C05": {
+        "text": ("Every run-time error branch of the language is a named branch of TengoSem/TengoValues; programs with injected type errors are "
+                 "evaluated by TLC and the real RunContext outcome must be one the model allows (the evidence lists the branches reached). The "
+                 "hostile family (runaway recursion, operand-stack exhaustion, containers mutated while iterated, cyclic containers through every "
+                 "traversal, builtins with extreme arguments, failing and panicking host functions) runs through RunContext in child processes: "
+                 "no panic, fatal error or hang may reach the host, and GetAll/Get/Set/RunContext/Clone on the same object must keep working."),
+        "design_ref": "DESIGN.md 8/C05",
+        "note": "Trusted: TLC; process death / 30 s deadline as the observation of 'takes the host down'. Known findings: cyclic containers traversed inside the VM.",
+        "technique": "TLA+ reference semantics predicts the error outcome of ill-typed programs; hostile programs replayed through RunContext in sacrificial child processes",
+    },
     "C06": {
         "text": ("AllocTrace.tla states the VM's allocation accounting (counter N+1, tracked sites, decrement after success, stop at zero); TLC "
                  "replays the per-instruction trace of every real run under budgets 0..5, A-2..A+1, A+7 and unlimited and checks the counter at "
